@@ -115,7 +115,7 @@ fn watch_end() {
 }
 
 /// number of hand-written histories run before the random ones
-pub const N_DIRECTED: usize = 10;
+pub const N_DIRECTED: usize = 11;
 
 pub fn penalty_num(loc: u32, class: u32) -> u32 {
     1000 + loc * 10 + class
@@ -327,7 +327,17 @@ impl<'a> Gen<'a> {
         let mut ops: Vec<HOp> = vec![HOp::Reg { user: 1 }, HOp::Reg { user: 2 }];
         // one tracker reaches 100 confirmations in the very block in which another one's re-broadcast is rejected: the
         // first is refunded, the second is not (three spacings, so that one of them makes the two coincide)
-        if which == 9 {
+        if which == 100 {
+            // (run through the client's own request and reply code) a subscription with so many appointments that the
+            // tower's answer to `get_subscription_info` is far larger than one read of the HTTP stack
+            for i in 0..260u32 {
+                ops.push(HOp::Add { user: 1, loc: 20 + i, blob: BlobSpec::Junk { tag: 100 + i, len: 40 }, tsd: 10, sig: SigKind::Valid });
+            }
+            ops.push(HOp::Sub { user: 1, sig: SigKind::Valid });
+            ops.push(empty());
+            ops.push(HOp::Sub { user: 1, sig: SigKind::Valid });
+            ops.push(HOp::Get { user: 1, loc: 21, sig: SigKind::Valid });
+        } else if which == 9 {
             // a penalty confirmed and buried, three blocks disconnected, one replacement connected (the responder's index
             // holds fewer blocks than its size), then the appointment arrives: the recorded confirmation height must be
             // the penalty's height on the active chain
@@ -342,6 +352,15 @@ impl<'a> Gen<'a> {
             ops.push(HOp::Add { user: 1, loc: 1, blob: enc(1, 260), tsd: 10, sig: SigKind::Valid });
             ops.push(HOp::Get { user: 1, loc: 1, sig: SigKind::Valid });
             ops.push(empty());
+            ops.push(empty());
+        } else if which == 10 {
+            // the tower is started again two blocks after a dispute was mined: the look-up it builds from the blocks it is
+            // handed at start-up must cover the six most recent ones, so the appointment that arrives next is answered
+            ops.push(conn(vec![1]));
+            ops.push(empty());
+            ops.push(HOp::Restart);
+            ops.push(HOp::Add { user: 1, loc: 1, blob: enc(1, 260), tsd: 10, sig: SigKind::Valid });
+            ops.push(HOp::Get { user: 1, loc: 1, sig: SigKind::Valid });
             ops.push(empty());
         } else if which == 8 {
             // dispute and penalty mined together by somebody else, that block reorged out (the tower has no tracker in it),
@@ -623,8 +642,8 @@ pub fn run_mode2(seed: u64, thorough: bool, rep: &mut Report, http: bool, plugin
             }
             let mut rng = rngs.lock().unwrap()[c].take().unwrap();
             let mut rep = Report::detached();
-            let directed = if c < N_DIRECTED && !http { Some(c) } else { None };
-            let cfg = if directed == Some(4) { (5u32, 2_200_000_000u32, 0u32) } else if directed.is_some() { (5u32, 400u32, 6u32) } else { (
+            let directed = if c < N_DIRECTED && !http { Some(c) } else if plugin_client && c == 0 { Some(100) } else { None };
+            let cfg = if directed == Some(100) { (300u32, 400u32, 6u32) } else if directed == Some(4) { (5u32, 2_200_000_000u32, 0u32) } else if directed.is_some() { (5u32, 400u32, 6u32) } else { (
                 // (a subscription size for which a second registration overflows u32: the refused-renewal path)
                 *rng.pick(&[1u32, 2, 3, 5, 8, 1, 2, 3, 5, 8, 2_200_000_000]),
                 // (a duration for which a renewal runs into the u32 cap of the expiry)
